@@ -293,6 +293,28 @@ pub fn disasm_event(v: &Vocab, m: &dr::Module, tag: &str) -> Value {
     }
 }
 
+/// "generator tool name": the header comment of the same (empty) module under two generator words that differ in the
+/// 16-bit tool id only - a registered tool (pinned list) and an id outside the pinned list
+fn header_pair_events(out: &mut Out) {
+    let header_tokens = |g: u32| -> Value {
+        let r = catch(|| {
+            let mut m = dr::Module::new();
+            let mut h = dr::ModuleHeader::new(9);
+            h.version = 0x0001_0300; h.generator = g;
+            m.header = Some(h);
+            let text = m.disassemble();
+            text.split('\n').take_while(|l| l.trim_start().starts_with(';')).map(tokenize).collect::<Vec<_>>()
+        });
+        match r { Ok(t) => json!(t), Err(_) => json!([["<panic>"]]) }
+    };
+    for j in 0..16u32 {
+        for other in [j + 256, j + 512, j + 0x8000, j + 0xff00, j + 16, 0xffff - j] {
+            if other < 16 || other > 0xffff { continue; }
+            out.ev(json!({"ev": "hdrpair", "tag": "header-pair", "g1": j, "g2": other, "tok1": header_tokens((j << 16) | 3), "tok2": header_tokens((other << 16) | 3)}));
+        }
+    }
+}
+
 /// Loads the binary; a panic of the loader / parser is recorded (an event of its own, counted by C04).
 fn load_insts(out: &mut Out, insts: &[SInst]) -> Option<dr::Module> { load_insts_v(out, insts, HEADER[1]) }
 /// (with the version word of the input's header)
@@ -317,6 +339,7 @@ pub fn drive(args: &[String]) {
     let mut rng = Rng::new(arg_num(args, "--seed", 1));
     let n = arg_num(args, "--n", 200) as usize;
     let gen = Gen { g: &g };
+    header_pair_events(&mut out);
     // (a) random loadable modules (any mix of opcodes)
     for k in 0..n {
         let (insts, _) = random_loadable(&g, &mut rng, k % 2 == 1, 3);
